@@ -210,39 +210,61 @@ func c20Fold(c *core.Ctx, fn *ssa.Function) {
 				fromElem = false
 			}
 		}
-		facts := core.FactsAt(r.Block())
-		strictRound, eqRound, strictHash := false, false, false
-		for _, f := range facts {
-			if f.Op == "<" && f.B == "p3" {
-				strictRound = true
+		// what is known on arrival: the dominating conditions, or - when the exit is shared by the two halves
+		// of an `a || b` test - the conditions of each incoming edge, every one of which must be a strict comparison
+		evalConds := func(conds []core.Cond) (strictRound, tie bool) {
+			eqRound, strictHash := false, false
+			for _, cd := range conds {
+				f := core.FactOf(cd)
+				if f.Op == "<" && f.B == "p3" {
+					strictRound = true
+				}
+				if f.Op == "==" && (f.A == "p3" || f.B == "p3") {
+					eqRound = true
+				}
+				if f.Op == "<" && strings.HasPrefix(f.A, "bytes.Compare(") && strings.Contains(f.A, "p1.hash") && strings.Contains(f.A, "p2") && f.B == "0" {
+					strictHash = true
+				}
 			}
-			if f.Op == "==" && (f.A == "p3" || f.B == "p3") {
-				eqRound = true
-			}
-			if f.Op == "<" && strings.HasPrefix(f.A, "bytes.Compare(") && strings.Contains(f.A, "p1.hash") && strings.Contains(f.A, "p2") && f.B == "0" {
-				strictHash = true
-			}
-		}
-		// `a && b` as a value: lowerHashForSameRound is a phi; accept the phi-form as well
-		if !strictRound && !(eqRound && strictHash) {
-			for _, cd := range core.CondsAt(r.Block()) {
-				if ph, ok := cd.V.(*ssa.Phi); ok && cd.Taken {
-					e, h := phiConj(ph)
-					if e && h {
-						eqRound, strictHash = true, true
+			// `a && b` as a value: lowerHashForSameRound is a phi; accept the phi-form as well
+			if !strictRound && !(eqRound && strictHash) {
+				for _, cd := range conds {
+					if ph, ok := cd.V.(*ssa.Phi); ok && cd.Taken {
+						e, h := phiConj(ph)
+						if e && h {
+							eqRound, strictHash = true, true
+						}
 					}
 				}
+			}
+			return strictRound, eqRound && strictHash
+		}
+		strictRound, tie := evalConds(core.CondsAt(r.Block()))
+		if blk := r.Block(); !strictRound && !tie && len(blk.Preds) > 1 {
+			all, anyRound, anyTie := true, false, false
+			for _, pred := range blk.Preds {
+				for si, sb := range pred.Succs {
+					if sb != blk {
+						continue
+					}
+					sr, t := evalConds(core.CondsOnEdge(pred, si))
+					all = all && (sr || t)
+					anyRound, anyTie = anyRound || sr, anyTie || t
+				}
+			}
+			if all {
+				strictRound, tie = anyRound, anyTie
 			}
 		}
 		if !core.Reachable(r) {
 			c.Pass(rule, name, r.Pos(), "unreachable exit (constant condition)")
 			continue
 		}
-		good := fromElem && (strictRound || (eqRound && strictHash))
+		good := fromElem && (strictRound || tie)
 		if strictRound {
 			byRound = true
 		}
-		if eqRound && strictHash {
+		if tie {
 			tieBreak = true
 		}
 		c.Check(good, rule, name, r.Pos(), "takes the current header only under a strict (round, hash) comparison",
